@@ -89,6 +89,14 @@ func vDetRun(scenario int, order uint32) *vDigest {
 		if W.n < vNE {
 			W.create([]int{cR1, cR2}, firstParent, Entity{})
 		}
+	case 5: // both targets of a two-relation table die, one after the other
+		W.removeEntity(1)
+		W.digest(d)
+		W.removeEntity(0)
+		W.digest(d)
+		if W.n < vNE {
+			W.create([]int{cR1, cR2}, Entity{}, Entity{})
+		}
 	case 3:
 		W.removeEntity(0)
 		W.w.Shrink()
@@ -120,8 +128,9 @@ func vDeterminism(scenario int) {
 	vreach("end")
 }
 
-func VerifC12_TargetDeath()       { vDeterminism(0) }
-func VerifC12_ResetRecycle()      { vDeterminism(1) }
-func VerifC12_Recycle()           { vDeterminism(2) }
-func VerifC12_ShrinkRecycle()     { vDeterminism(3) }
-func VerifC12_SharedTargetDeath() { vDeterminism(4) }
+func VerifC12_TargetDeath()            { vDeterminism(0) }
+func VerifC12_ResetRecycle()           { vDeterminism(1) }
+func VerifC12_Recycle()                { vDeterminism(2) }
+func VerifC12_ShrinkRecycle()          { vDeterminism(3) }
+func VerifC12_SharedTargetDeath()      { vDeterminism(4) }
+func VerifC12_SuccessiveTargetDeaths() { vDeterminism(5) }
